@@ -56,6 +56,7 @@ type recShard struct {
 	trivial     int64
 	ntSeen      int64
 	hashes      map[uint64]struct{}
+	counted     int64
 	labels      map[string]int64
 	samples     []interface{}
 	nextGeo     int64
@@ -70,14 +71,17 @@ type Recorder struct {
 	Rule       string
 	Exhaustive bool
 	Bounds     string
-	shards     [nShards]recShard
-	capped     bool
-	labels     map[string]int64
-	failures   map[string]*Failure
-	excluded   int64
-	start      time.Time
-	notes      []string
-	fuzzExecs  int64
+	// DupFree: the enumeration visits every case exactly once, so distinct non-trivial cases are
+	// counted directly instead of through the (capped) hash set.
+	DupFree   bool
+	shards    [nShards]recShard
+	capped    bool
+	labels    map[string]int64
+	failures  map[string]*Failure
+	excluded  int64
+	start     time.Time
+	notes     []string
+	fuzzExecs int64
 }
 
 var (
@@ -176,7 +180,9 @@ func (r *Recorder) Case(key string, nontrivial bool, sample func() interface{}, 
 		return
 	}
 	sh.ntSeen++
-	if len(sh.hashes) < hashCap/nShards {
+	if r.DupFree {
+		sh.counted++
+	} else if len(sh.hashes) < hashCap/nShards {
 		sh.hashes[h] = struct{}{}
 	} else {
 		r.capped = true
@@ -353,7 +359,7 @@ func (r *Recorder) Flush() {
 		sh.mu.Lock()
 		evaluations += sh.evaluations
 		trivial += sh.trivial
-		distinct += int64(len(sh.hashes))
+		distinct += int64(len(sh.hashes)) + sh.counted
 		for k, v := range sh.labels {
 			labels[k] += v
 		}
